@@ -207,7 +207,15 @@ func (g *gctx) count(o ov, name string) int {
 // rawExt builds one well-formed raw extension of a type the parsers do not know.
 func (g *gctx) rawExt(name string) *Val {
 	typ := g.intn(0x7000, 0x7fff, name+"-type")
+	// body lengths on both sides of the one-byte boundary of the 16-bit length
+	// (an encoder or recorder that loses the high byte is invisible below 256)
 	n := g.intn(0, 40, name+"-len")
+	switch g.intn(0, 7, name+"-lenclass") {
+	case 0:
+		n = []int{255, 256, 257, 300}[g.intn(0, 3, name+"-edge")]
+	case 1:
+		n = g.intn(256, 2000, name+"-long")
+	}
 	b := []byte{byte(typ >> 8), byte(typ), byte(n >> 8), byte(n)}
 	b = append(b, rapid.SliceOfN(rapid.Byte(), n, n).Draw(g.t, name+"-data")...)
 	return &Val{B: b}
